@@ -106,7 +106,25 @@ def resolve_const(spec):
     return o
 
 
-def resolve_arg(spec, regs):
+def _at_dead_address(make, dead, tries=400):
+    """object identity is a simulator decision: a container the caller builds for
+    a call is allocated until it lands on the address of a container that died
+    after an earlier call (a memo keyed by id() of an argument then meets a
+    recycled address in practice, not once in a blue moon)"""
+    if not dead:
+        return make()
+    keep = []
+    for _ in range(tries):
+        o = make()
+        if id(o) in dead:
+            del keep
+            return o
+        keep.append(o)
+    del keep
+    return make()
+
+
+def resolve_arg(spec, regs, dead=None):
     if "lit" in spec:
         return C.rebuild(spec["lit"])
     if "reg" in spec:
@@ -122,9 +140,11 @@ def resolve_arg(spec, regs):
     if "const" in spec:
         return resolve_const(spec)
     if "list" in spec:
-        return [resolve_arg(s, regs) for s in spec["list"]]
+        items = [resolve_arg(s, regs) for s in spec["list"]]
+        return _at_dead_address(lambda: list(items), dead)
     if "tuple" in spec:
-        return tuple(resolve_arg(s, regs) for s in spec["tuple"])
+        items = [resolve_arg(s, regs) for s in spec["tuple"]]
+        return _at_dead_address(lambda: tuple(items), dead) if items else ()
     raise KeyError("bad arg spec %r" % (spec,))
 
 
